@@ -473,6 +473,76 @@ def patch_module_locks(sched, modules):
     return undo
 
 
+class DetectLock:
+    """A real lock that notices the thread that holds it acquiring it
+    again (a self-deadlock of a non-reentrant lock): recorded in `found` and
+    turned into an exception instead of a thread that hangs for ever."""
+    found = []
+
+    def __init__(self, reentrant=False):
+        import threading as _t
+        self._t = _t
+        self._l = _t.RLock() if reentrant else _t.Lock()
+        self.reentrant = reentrant
+        self.owner = None
+
+    def acquire(self, blocking=True, timeout=-1):
+        me = self._t.get_ident()
+        if not self.reentrant and self.owner == me:
+            import traceback
+            DetectLock.found.append(''.join(traceback.format_stack(
+                limit=14)))
+            raise RuntimeError('self-deadlock: this thread already holds '
+                               'the lock it is acquiring')
+        ok = self._l.acquire(blocking, timeout)
+        if ok and not self.reentrant:
+            self.owner = me
+        return ok
+
+    def release(self):
+        self.owner = None
+        self._l.release()
+
+    __enter__ = acquire
+
+    def __exit__(self, *a):
+        self.release()
+
+    def locked(self):
+        return self.owner is not None
+
+
+class _DetectProxy:
+    def __init__(self):
+        import threading as _t
+        self._t = _t
+
+    def Lock(self):
+        return DetectLock()
+
+    def RLock(self):
+        return DetectLock(reentrant=True)
+
+    def __getattr__(self, name):
+        return getattr(self._t, name)
+
+
+def patch_module_detect_locks(modules):
+    """Locks the given modules create from now on are DetectLocks.
+    Returns an undo function."""
+    proxy = _DetectProxy()
+    saved = []
+    for m in modules:
+        if getattr(m, 'threading', None) is not None:
+            saved.append((m, m.threading))
+            m.threading = proxy
+
+    def undo():
+        for m, orig in saved:
+            m.threading = orig
+    return undo
+
+
 def report_abort(ctx, sched, wit, what='schedule did not complete'):
     """A schedule that did not finish: 'deadlock' is the scheduler's own
     finding (every actor is blocked on something it controls - locks, events,
